@@ -19,8 +19,17 @@ def handlers_in(fn_node):
 
 
 def check(chk, ex, found):
-    fn = Sym(z3.Int("filename"), "str")
     for mod, cls in LOADERS:
+        try:
+            _check_class(chk, ex, found, mod, cls)
+        except X.Unsupported as e:
+            chk.undecided.append((cls + " loader", "unsupported construct in glue: %s" % e))
+    _check_module_load(chk, ex, found)
+
+
+def _check_class(chk, ex, found, mod, cls):
+    fn = Sym(z3.Int("filename"), "str")
+    if True:
         c = ex.cls(mod, cls)
         load = c.lookup("load")[0]
         name = cls + ".load"
@@ -33,7 +42,13 @@ def check(chk, ex, found):
         savez = [n for n in calls if isinstance(n.func, ast.Attribute) and n.func.attr in ("savez", "savez_compressed") and isinstance(n.func.value, ast.Name) and n.func.value.id == "np"]
         opens = [n for n in calls if (isinstance(n.func, ast.Name) and n.func.id == "open") or (isinstance(n.func, ast.Attribute) and n.func.attr in ("open", "fdopen"))]
         param = save.node.args.args[1].arg if len(save.node.args.args) > 1 else None
-        ok = len(savez) == 1 and not opens and savez[0].args and isinstance(savez[0].args[0], ast.Name) and savez[0].args[0].id == param
+        # nothing but np.savez (and pure path conversions) is handed the file name
+        PURE = {"Path", "str", "fspath", "abspath", "expanduser", "resolve", "with_suffix"}
+        def fname_(n):
+            return n.func.id if isinstance(n.func, ast.Name) else getattr(n.func, "attr", "?")
+        touching = [fname_(n) for n in calls if n not in savez and fname_(n) not in PURE and any(isinstance(x, ast.Name) and x.id == param for a_ in list(n.args) + [k.value for k in n.keywords] for x in ast.walk(a_))]
+        opens = opens + [n for n in calls if fname_(n) in ("ZipFile", "NamedTemporaryFile", "TemporaryFile", "memmap")]
+        ok = len(savez) == 1 and not opens and not touching and savez[0].args and isinstance(savez[0].args[0], ast.Name) and savez[0].args[0].id == param
         _wrappers.row(chk, cls + ".save:np.savez-gets-the-path-itself-and-nothing-else-opens-a-file", ok, None, found)
         # (2) a sketch is returned only after every member save() wrote has been read through the npz file
         a, objs, _ = _glue.good_objects(ex, cls, "t")
@@ -64,6 +79,9 @@ def check(chk, ex, found):
                     ok = False
             _wrappers.row(chk, name + ":member-reads-inside-the-with-block", ok, kinds, found)
         ex.npz_members = None
+
+
+def _check_module_load(chk, ex, found):
     ml = ex.func("countmin", "load")
     _wrappers.row(chk, "countmin.load:no-exception-handler", not handlers_in(ml.node), None, found)
     # the module-level loader opens the file it was given - and only that file - on its way to the
